@@ -105,6 +105,13 @@ func (e c07MM) Error() string {
 }
 func (e c07MM) Unwrap() []error { return e["c"] }
 
+// c07SL: a SLICE-kinded error whose elements are its causes; its number is kept in the spare capacity
+// (cap - len - 1), so that the value can be built first and filled in place afterwards (cycles)
+type c07SL []error
+
+func (e c07SL) Error() string   { return "n" + strconv.Itoa(cap(e)-len(e)-1) }
+func (e c07SL) Unwrap() []error { return e }
+
 // ---------- descriptions ----------
 
 // Kind: ps pm vs vm mm (foreign, mutable)   ew ej en (errdef: Wrap / Join / New)
@@ -146,10 +153,13 @@ var c07RendererCoq = map[string]string{
 	"#v": "(RTree KSharp)", "slog": "(RTree KSlog)", "nodelog": "(RTree KNodeLog)", "debugstack": "(RTree KDebug)", "json": "RJson",
 }
 
+const c07ClassValueCycle = "value-kind-only-cycle"
+
 const (
-	c07TagK1 = "json-cycle-through-errdef-node"
-	c07TagK7 = "gostring-cycle-through-inline-kinded-cause"
-	c07TagK8 = "fmt-cycle-in-field-value"
+	c07TagK12 = "cycle-of-value-kinded-errors-only"
+	c07TagK1  = "json-cycle-through-errdef-node"
+	c07TagK7  = "gostring-cycle-through-inline-kinded-cause"
+	c07TagK8  = "fmt-cycle-in-field-value"
 )
 
 func init() {
@@ -187,7 +197,7 @@ func c07IsErrdef(k string) bool { return k == "ew" || k == "ej" || k == "en" || 
 func c07IsValue(k string) bool  { return k == "vs" || k == "vm" }
 func c07IsSingle(k string) bool { return k == "ps" || k == "vs" || k == "np" }
 func c07IsForeign(k string) bool {
-	return k == "ps" || k == "pm" || k == "vs" || k == "vm" || k == "mm" || k == "np"
+	return k == "ps" || k == "pm" || k == "vs" || k == "vm" || k == "mm" || k == "np" || k == "sl"
 }
 func c07BadField(f string) bool {
 	return f == "chan" || f == "func" || f == "nan" || f == "inf" || f == "selfmap"
@@ -240,8 +250,8 @@ func c07Valid(d c07Item) bool {
 			if c07IsErrdef(nd.Kind) && c07IsErrdef(ck) && c >= i {
 				return false // an errdef error wraps only errors that already exist
 			}
-			if c07IsValue(nd.Kind) && c07IsValue(ck) && c >= i {
-				return false // every cycle passes through a tracked node
+			if c07IsValue(nd.Kind) && c07IsValue(ck) && c >= i && d.Class != c07ClassValueCycle {
+				return false // every cycle passes through a tracked node (but for the class of K12)
 			}
 		}
 		if nd.Kind == "ew" && (len(nd.Causes) != 1 || nonNil != 1) {
@@ -339,7 +349,7 @@ func c07Direct(d c07Item) []int {
 // K7: %#v reaches, through map-kinded nodes only, a cycle of map-kinded nodes
 func c07InlineCycle(d c07Item) bool {
 	e := c07Edges(d)
-	inl := func(x int) bool { return d.Nodes[x].Kind == "mm" }
+	inl := func(x int) bool { return d.Nodes[x].Kind == "mm" || d.Nodes[x].Kind == "sl" }
 	for _, c := range c07Direct(d) {
 		if !inl(c) {
 			continue
@@ -382,10 +392,27 @@ func c07Shared(d c07Item) bool {
 	return false
 }
 
+// K12: a cycle made of value-kinded (untracked) nodes only is reachable from the receiver
+func c07ValueOnlyCycle(d c07Item) bool {
+	e := c07Edges(d)
+	r := c07Reach(e, d.Recv, nil)
+	r[d.Recv] = true
+	isVal := func(i int) bool { return c07IsValue(d.Nodes[i].Kind) }
+	for x := range r {
+		if isVal(x) && c07Reach(e, x, isVal)[x] {
+			return true
+		}
+	}
+	return false
+}
+
 func c07TagsFor(d c07Item) []string {
 	var tags []string
 	if d.Restored {
 		return nil
+	}
+	if c07ValueOnlyCycle(d) {
+		tags = append(tags, c07TagK12)
 	}
 	switch d.Renderer {
 	case "json":
@@ -487,6 +514,8 @@ func c07Build(d c07Item) (b *c07Built, problem string) {
 			b.errs[i] = c07VM{id: i, cell: cells[i]}
 		case "mm":
 			b.errs[i] = c07MM{"id:" + strconv.Itoa(i): nil}
+		case "sl":
+			b.errs[i] = make(c07SL, len(nd.Causes), len(nd.Causes)+i+1)
 		}
 	}
 	get := func(c int) error {
@@ -591,6 +620,8 @@ func c07Build(d c07Item) (b *c07Built, problem string) {
 			if len(many) > 0 {
 				b.errs[i].(c07MM)["c"] = many
 			}
+		case "sl":
+			copy(b.errs[i].(c07SL), many) // in place: the value other nodes hold is this very slice
 		}
 	}
 	return b, ""
@@ -658,7 +689,7 @@ func c07Render(e error, renderer string) (res c07Res) {
 	case "#v":
 		s := fmt.Sprintf("%#v", e)
 		res.N = len(s)
-		res.S = make([]int, strings.Count(s, "main.c07MM{"))
+		res.S = make([]int, strings.Count(s, "main.c07MM{")+strings.Count(s, "main.c07SL{"))
 	case "slog":
 		v := e.(slog.LogValuer).LogValue()
 		_ = c07SlogAny(v)
@@ -984,7 +1015,7 @@ func c07RenderCase(d c07Item, r c07Res) Case {
 		if nd.Field == "selfmap" {
 			cycf = append(cycf, i)
 		}
-		if nd.Kind == "mm" {
+		if nd.Kind == "mm" || nd.Kind == "sl" {
 			inl = append(inl, i)
 		}
 	}
@@ -1075,7 +1106,7 @@ func c07Exhaustive(emit func(c07Item)) {
 	}
 }
 
-var c07Kinds = []string{"ps", "ps", "ps", "pm", "pm", "pm", "pm", "vs", "vs", "vm", "vm", "mm", "ew", "ew", "ej", "ej", "en", "rs"}
+var c07Kinds = []string{"ps", "ps", "ps", "pm", "pm", "pm", "pm", "vs", "vs", "vm", "vm", "mm", "sl", "ew", "ew", "ej", "ej", "en", "rs"}
 var c07FineFields = []string{"", "", "", "", "plain", "multiline", "huge", "niltime", "nilmarsh", "niltext", "nilany"}
 
 // a random graph of n inner nodes of mixed kinds plus an errdef receiver (node n)
@@ -1209,6 +1240,15 @@ func c07Fixed() []c07Item {
 		return c07Item{Nodes: nodes, Recv: recv, Class: class}
 	}
 	return []c07Item{
+		// slice-kinded errors: a slice that contains itself, two that contain each other, no cycle
+		mk("slice-kinded-cycle", 1, c07Node{Kind: "sl", Causes: []int{0}}, c07Node{Kind: "ew", Causes: []int{0}}),
+		mk("slice-kinded-cycle", 2, c07Node{Kind: "sl", Causes: []int{1, -1}}, c07Node{Kind: "sl", Causes: []int{0}}, c07Node{Kind: "ej", Causes: []int{0, 1}}),
+		mk("slice-kinded-cycle", 2, c07Node{Kind: "sl", Causes: []int{1}}, c07Node{Kind: "ps", Causes: []int{0}}, c07Node{Kind: "ew", Causes: []int{0}}),
+		mk("slice-kinded-no-cycle", 2, c07Node{Kind: "sl", Causes: []int{1, 1}}, c07Node{Kind: "sl"}, c07Node{Kind: "ew", Causes: []int{0}}),
+		// K12: cycles made of value-kinded errors only (struct values that reach each other through a shared cell)
+		mk(c07ClassValueCycle, 2, c07Node{Kind: "vs", Causes: []int{1}}, c07Node{Kind: "vs", Causes: []int{0}}, c07Node{Kind: "ew", Causes: []int{0}}),
+		mk(c07ClassValueCycle, 1, c07Node{Kind: "vm", Causes: []int{0, -1}}, c07Node{Kind: "ej", Causes: []int{0}}),
+		mk(c07ClassValueCycle, 3, c07Node{Kind: "vs", Causes: []int{1}}, c07Node{Kind: "vm", Causes: []int{2, 0}}, c07Node{Kind: "ps"}, c07Node{Kind: "ew", Causes: []int{0}}),
 		// a typed nil error with nil-safe methods that unwraps to itself / back to itself through another node
 		mk("typed-nil-cycle", 1, c07Node{Kind: "np", Causes: []int{0}}, c07Node{Kind: "ew", Causes: []int{0}}),
 		mk("typed-nil-cycle", 2, c07Node{Kind: "np", Causes: []int{1}}, c07Node{Kind: "vs", Causes: []int{0}}, c07Node{Kind: "ej", Causes: []int{1, 0}}),
@@ -1791,6 +1831,10 @@ func c07GenSeqs(r *Rng, tier string) [][]c07Step {
 			around := 1 + r.Intn(4)
 			if r.Chance(1, 12) {
 				around = 0 // StackSource(0, d): no snippets at all
+			}
+			if r.Chance(1, 15) {
+				// a window larger than any file: the whole file, whatever the line (line+around must not wrap)
+				around = Pick(r, []int{math.MaxInt, math.MaxInt - 3, 1 << 62, 1 << 31})
 			}
 			s = append(s, c07Step{Files: map[string]string{"a.go": Pick(r, all), "b.go": Pick(r, all)}, Site: site, Around: around, Depth: depth})
 		}
